@@ -58,9 +58,9 @@ _MASK_O = 0  # not masked
 # For parsing replacement templates
 _replacements_re = re.compile(
     r"\\(?:"
-    r"(?P<dec>[1-9][0-9]?)"  # decimal numbered group: \1, \2
+    r"(?P<oct>0[0-7]{,2}|[0-7]{3})"  # octal character: \0, \07, \123
+    r"|(?P<dec>[1-9][0-9]?)"  # decimal numbered group: \1, \2
     r"|g<(?P<grp>[^>]+)>"  # \g named or numbered group: \g<foo>, \g<1>
-    r"|(?P<oct>[0-7]{,3})"  # octal character: \07, \123
     r"|(?P<esc>[abfnrtv\\])"  # ASCII escape sequences
     r")"
 )
@@ -707,9 +707,11 @@ def _parse_template(replacement: str, _re: Pattern[str]):
                 index = int(grp)
         elif oct := m.group("oct"):
             literals.append(chr(int(oct, 8) & 0xff))
+            pos = m.end()
             continue
         elif esc := m.group("esc"):
             literals.append(_ascii_escapes[esc])
+            pos = m.end()
             continue
         else:
             raise REPPError(f"unexpected replacement pattern: {replacement!r}")
